@@ -18,9 +18,14 @@ def cli_san():
     return common.build_cxx("hexasm_san", ["repo:hexasm.cpp", "repo:hex.cpp"], flavour="cli-san")
 
 
+def fuzz_target():
+    return common.build_cxx("fz_asm", ["fz_asm.cpp", "repo:hex.cpp"], flavour="fuzz")
+
+
 def build():
     harness()
     cli_san()
+    fuzz_target()
     return common.build_cli()
 
 
@@ -31,4 +36,4 @@ def corpus(rnd):
 
 
 def run(tier, replay=None):
-    return c09.run(tier, replay, which="asm", pid="C10", harness_fn=harness, cli_fn=cli_san, corpus_fn=corpus, tool="hexasm")
+    return c09.run(tier, replay, which="asm", pid="C10", harness_fn=harness, cli_fn=cli_san, corpus_fn=corpus, tool="hexasm", fuzz_fn=fuzz_target)
